@@ -18,6 +18,10 @@ type actSpec struct {
 // buildAct constructs the activation; conf=0 means a nil config (defaults).
 func buildAct(name string, rank int) (fwd func(T) (T, error), sp actSpec, ok bool) {
 	sp = actSpec{name: name}
+	// other instances with other configurations exist: a layer's behaviour depends on its own config only
+	activations.NewLeakyRelu(&activations.LeakyReluConfig{M: 7})
+	activations.NewSoftmax(&activations.SoftmaxConfig{Dim: 1})
+	activations.NewSoftmax(&activations.SoftmaxConfig{Dim: -1})
 	nilConf := vrt.Param("nilconf") == 1
 	switch name {
 	case "Relu":
